@@ -56,19 +56,30 @@ Proof. intros HI. induction l as [| x l IH]; intros Hin F; [reflexivity |]. cbn 
   unfold render_slot at 1. rewrite B1, B2, B3. cbn [nz Z.eqb words_of_bytes nonzero filter app].
   apply IH; [| assumption]. intros y Hy. apply Hin. right. assumption. Qed.
 
-Theorem after_unblock lo cfg : Inv lo cfg -> cons_idle (g_cons cfg) ->
+(* what a padding header of length L stored over the slot at the consumer position must satisfy for the memory to be
+   that of a well-formed configuration again (the facts unblock_spec establishes for the sequential unblock) *)
+Definition pad_facts (R : ring) (s1 : slot) (rest : list slot) (L : Z) : Prop :=
+  r_slots R = s1 :: rest /\ s_len s1 <= 0 /\
+  0 < L /\ r_head R mod r_cap R + align L 8 <= r_cap R /\
+  r_head R + align L 8 <= r_tail R /\
+  (r_head R + align L 8 = r_tail R \/ exists s, In s rest /\ s_pos s = r_head R + align L 8) /\
+  (forall x, In x rest -> s_pos x < r_head R + align L 8 -> s_len x = 0) /\
+  (s_len s1 < 0 -> L = - s_len s1) /\
+  (s_len s1 = 0 -> r_head R mod r_cap R + align L 8 < r_cap R).
+
+Theorem after_pad lo cfg s1 rest L : Inv lo cfg -> head' (g_ring cfg) (g_cons cfg) = r_head (g_ring cfg) ->
+  (c_pc (g_cons cfg) = CReadHead \/ c_pc (g_cons cfg) = CDone) ->
   let R := g_ring cfg in
-  snd (unblock R) = true ->
+  pad_facts R s1 rest L ->
   exists swept suffix pad,
     r_slots R = swept ++ suffix /\ swept <> [] /\ Forall (fun s => s_len s <= 0) swept /\
     s_type pad = PAD /\ s_pos pad = r_head R /\ s_span pad = span_sum swept /\
     let cfg' := mkCfg (set_slots R (pad :: suffix)) (g_cons cfg) (retire swept (g_prods cfg)) in
-    Inv lo cfg' /\ render (g_ring cfg') = render (fst (unblock R)).
+    Inv lo cfg' /\ render (g_ring cfg') = render (set_slots R (set_hdr L PAD s1 :: rest)).
 Proof.
-  intros HI Hid. cbn zeta. set (R := g_ring cfg). intros Hu.
-  pose proof (idle_head' R _ Hid) as Hh'. fold R in Hh'.
-  destruct (unblock_spec lo cfg HI Hid) as (_ & _ & _ & U4). fold R in U4.
-  destruct (U4 Hu) as (s1 & rest & L & Es & Hneg & ER1 & HL & Hfit & Hend & Hb & Hblank & Hnegl & Hstrict). clear U4.
+  intros HI Hh' Hid. cbn zeta. set (R := g_ring cfg). fold R in Hh'.
+  intros (Es & Hneg & HL & Hfit & Hend & Hb & Hblank & Hnegl & Hstrict).
+  assert (ER1 : set_slots R (set_hdr L PAD s1 :: rest) = set_slots R (set_hdr L PAD s1 :: rest)) by reflexivity.
   pose proof HI as [Icap Ilo Ihc Ih8 It8 Ihh Itl Isz Iwin Isl Ipr Ics]. fold R in Icap, Ihc, Ih8, It8, Ihh, Itl, Isz, Iwin, Isl, Ipr, Ics.
   rewrite Hh' in Itl, Ihh. pose proof (cap_ok_range _ Icap) as Hcr.
   rewrite Es in Itl. inversion Itl as [| h0 t0 s0 sl0 Hp1 G1 T2]; subst h0 t0 s0 sl0.
@@ -166,7 +177,7 @@ Proof.
         unfold owned_by. apply existsb_exists. exists s. split; [assumption | lia].
     + unfold cons_ok in *. destruct Hid as [E | E]; rewrite E in *; assumption.
   - (* the same memory *)
-    cbn [g_ring]. rewrite ER1. unfold render. cbn [set_slots r_slots r_cap flat_map].
+    cbn [g_ring]. unfold render. cbn [set_slots r_slots r_cap flat_map].
     assert (Epad : render_slot (r_cap R) pad = render_slot (r_cap R) (set_hdr L PAD s1)).
     { unfold render_slot, pad. cbn [set_hdr s_pos s_len s_type s_body]. rewrite Hp1. reflexivity. }
     rewrite Epad. rewrite Erest. rewrite flat_map_app.
@@ -175,3 +186,18 @@ Proof.
       intros x Hx. fold R. rewrite Es, Erest. right. apply in_or_app. left. assumption. }
     rewrite Epre. reflexivity.
 Qed.
+
+Theorem after_unblock lo cfg : Inv lo cfg -> cons_idle (g_cons cfg) ->
+  let R := g_ring cfg in
+  snd (unblock R) = true ->
+  exists swept suffix pad,
+    r_slots R = swept ++ suffix /\ swept <> [] /\ Forall (fun s => s_len s <= 0) swept /\
+    s_type pad = PAD /\ s_pos pad = r_head R /\ s_span pad = span_sum swept /\
+    let cfg' := mkCfg (set_slots R (pad :: suffix)) (g_cons cfg) (retire swept (g_prods cfg)) in
+    Inv lo cfg' /\ render (g_ring cfg') = render (fst (unblock R)).
+Proof.
+  intros HI Hid. cbn zeta. intros Hu.
+  destruct (unblock_spec lo cfg HI Hid) as (_ & _ & _ & U4).
+  destruct (U4 Hu) as (s1 & rest & L & Es & Hneg & ER1 & HL & Hfit & Hend & Hb & Hblank & Hnegl & Hstrict). clear U4.
+  rewrite ER1. apply (after_pad lo cfg s1 rest L HI (idle_head' _ _ Hid) Hid).
+  unfold pad_facts. repeat split; assumption. Qed.
